@@ -486,3 +486,146 @@ def harnesses(tier):   # noqa: F811
     if tier == 'thorough':
         hs.append(Precedence(4, 'parser.precedence.4_operands'))
     return hs
+
+
+# ---------------------------------------------------------------------------------------------------------------
+# parse_query: the `-> [digits N] [base B]` suffix.  The digit printers downstream assume 2 <= base <= 36.
+
+class ConversionSuffix(Harness):
+    name = 'parse_query.conversion_suffix'
+    props = ('C04', 'C05')
+    entry_name = 'parse_query'
+    loop_bound = 40
+    describe = ('parse_query on `x -> [digits N] [base B | hex | oct | bin] [target]` with symbolic decimal digits for N and B: the query carries '
+                'exactly the base and digit count written, a base outside 2..=36 is an error, nothing panics')
+    bounds = ['left-hand side = one identifier; N of 1..3 digits, B of 1..3 digits; target absent or one identifier']
+    expect_classes = ['Convert', 'Error']
+    _concrete = None
+    stubs = ((r'^<Tz as FromStr>::from_str$', lambda ex, nc, a: ex.make_variant('Result', 'Err', ['not a timezone']),
+              'chrono_tz::Tz::from_str -> Err (the identifiers used here, x / y / ten, are not zone names)'),)
+    DIGITS = [None, 'digits', 'digitsN', 'sci', 'frac']
+    BASES = [None, 'base', 'hex', 'oct', 'bin', 'base-eof', 'base-ident']
+
+    def build(self, ex, I):
+        from mirsym.lib import PeekableV
+        from .c14dates import digits as sym_digits
+        dg = self.DIGITS[ex.choose(len(self.DIGITS), 'digits clause')]
+        bs = self.BASES[ex.choose(len(self.BASES), 'base clause')]
+        tgt = ex.choose(2, 'target present')
+        T = lambda n, f=(): variant(ex, 'Token', n, list(f))
+        toks = [T('Ident', ['x']), T('DashArrow')]
+        ctx = {'dg': dg, 'bs': bs, 'tgt': tgt, 'n': None, 'b': None}
+        if dg in ('digits', 'digitsN'):
+            toks.append(T('Ident', ['digits']))
+            if dg == 'digitsN':
+                k = 1 + ex.choose(3, 'digit-count length')
+                cs, v = sym_digits(ex, I, 'n', k)
+                toks.append(T('Decimal', [SymStr(cs), none(ex), none(ex)]))
+                ctx['n'] = v
+        elif dg:
+            toks.append(T('Ident', [dg]))
+        if bs == 'base':
+            k = 1 + ex.choose(3, 'base length')
+            cs, v = sym_digits(ex, I, 'b', k)
+            toks += [T('Ident', ['base']), T('Decimal', [SymStr(cs), none(ex), none(ex)])]
+            ctx['b'] = v
+        elif bs == 'base-eof':
+            toks.append(T('Ident', ['base']))
+            tgt = 0
+        elif bs == 'base-ident':
+            toks += [T('Ident', ['base']), T('Ident', ['ten'])]
+        elif bs:
+            toks.append(T('Ident', [bs]))
+        if tgt:
+            toks.append(T('Ident', ['y']))
+        ctx['tgt'] = tgt
+        it = PeekableV(RepeatEof(toks, variant(ex, 'Token', 'Eof')))
+        return [it], ctx
+
+    def entry(self, ex, args, ctx):
+        return ex.call(None, 'parsing::text_query::parse_query', [ref(args[0])])
+
+    def classify(self, outcome):
+        if outcome[0] == 'panic':
+            return 'panic'
+        return deref_all(outcome[1]).vname
+
+    def post(self, ex, ctx, outcome):
+        q = deref_all(outcome[1])
+        dg, bs = ctx['dg'], ctx['bs']
+        if q.vname == 'Error':
+            ok_err = z3.BoolVal(bs in ('base-eof', 'base-ident'))
+            if bs == 'base':
+                ok_err = z3.Or(ctx['b'] < 2, ctx['b'] > 36)
+            return [('a well-formed suffix with a base in 2..=36 is accepted', ok_err)]
+        if q.vname != 'Convert':
+            return [('a `->` query is a conversion (got %s)' % q.vname, False)]
+        left, conv, base, digs = (deref_all(f) for f in q.fields)
+        obs = []
+        if bs in ('base-eof', 'base-ident'):
+            obs.append(('`base` without a decimal numeral is an error', False))
+        want_b = {None: None, 'hex': 16, 'oct': 8, 'bin': 2}.get(bs, 'sym')
+        if want_b is None:
+            obs.append(('no base clause, no base', is_none(base)))
+        elif want_b == 'sym':
+            obs.append(('an accepted base lies in 2..=36', z3.And(ctx['b'] >= 2, ctx['b'] <= 36)))
+            obs.append(('the query carries the base that was written', b_and(is_some(base), n_eq(payload(base) if is_some(base) else 0, ctx['b']))))
+        else:
+            obs.append(('named base', b_and(is_some(base), n_eq(payload(base) if is_some(base) else 0, want_b))))
+        want_d = {None: 'Default', 'digits': 'FullInt', 'digitsN': 'Digits', 'sci': 'Scientific', 'frac': 'Fraction'}[dg]
+        obs.append(('digits mode is the one written (%s, got %s)' % (want_d, digs.vname), digs.vname == want_d))
+        if want_d == 'Digits' and digs.vname == 'Digits':
+            obs.append(('digit count is the one written', n_eq(digs.fields[0], ctx['n'])))
+        obs.append(('target %s' % ('expression' if ctx['tgt'] else 'absent'), conv.vname == ('Expr' if ctx['tgt'] else 'None')))
+        return obs
+
+    def case(self, ctx, vals, label):
+        c = Harness.case(self, ctx, vals, label)
+        c['inputs'].update({'digits_clause': ctx['dg'], 'base_clause': ctx['bs'], 'target': ctx['tgt']})
+        return c
+
+    def _text(self, inputs):
+        def num(tag):
+            k = len([x for x in inputs if re.match(r'^%s\d+$' % tag, x)])
+            return ''.join(chr(int(inputs['%s%d' % (tag, i)])) for i in range(k))
+        dg, bs = inputs['digits_clause'], inputs['base_clause']
+        t = '10/3 ->'
+        if dg == 'digits':
+            t += ' digits'
+        elif dg == 'digitsN':
+            t += ' digits ' + num('n')
+        elif dg:
+            t += ' ' + dg
+        if bs == 'base':
+            t += ' base ' + num('b')
+        elif bs == 'base-eof':
+            t += ' base'
+        elif bs == 'base-ident':
+            t += ' base ten'
+        elif bs:
+            t += ' ' + bs
+        return t, (int(num('b')) if bs == 'base' else None)
+
+    def native(self, inputs, label):
+        t, b = self._text(inputs)
+        return [{'mode': 'query', 'text': t}, {'mode': 'query', 'text': t.replace('10/3', '255 m')}]
+
+    def judge(self, inputs, label, obs):
+        t, b = self._text(inputs)
+        bad = []
+        for q in obs:
+            if q.get('outcome') == 'panic' or q.get('render_panic'):
+                bad.append('`%s` panics: %s' % (t, q.get('panic') or q.get('render_panic')))
+            elif b is not None and not (2 <= b <= 36) and q.get('outcome') == 'ok':
+                bad.append('`%s` is answered in base %d: %s' % (t, b, q.get('display')))
+            elif inputs['base_clause'] in ('base-eof', 'base-ident') and q.get('outcome') == 'ok':
+                bad.append('`%s` is answered: %s' % (t, q.get('display')))
+        return bool(bad), '; '.join(bad[:2]) or '`%s` -> %s' % (t, str(obs[0].get('display'))[:80])
+
+
+import re  # noqa: E402
+_c01lex_prev = harnesses
+
+
+def harnesses(tier):   # noqa: F811
+    return _c01lex_prev(tier) + [ConversionSuffix()]
